@@ -53,9 +53,9 @@ func OpenGtp5g(wg *sync.WaitGroup, addr string, mtu uint32) (*Gtp5g, error) {
 	wg.Add(1)
 	go func() {
 		defer wg.Done()
-		err = mux.Serve()
-		if err != nil {
-			g.log.Warnf("mux Serve err: %+v", err)
+		// not the err of the enclosing function: this goroutine outlives it
+		if serveErr := mux.Serve(); serveErr != nil {
+			g.log.Warnf("mux Serve err: %+v", serveErr)
 		}
 	}()
 	g.mux = mux
